@@ -475,7 +475,7 @@ pub fn run(run: &Run) {
         let s = w.genesis.clone().seal(None);
         let model = model_of(&s, &[CoinID::zero_zero()], &builtin_pool_keys(), &[]);
         let h0 = s.header();
-        let rootn = Node { real: Real::Sealed(s), model, path: std::sync::Arc::new(vec!["genesis[Custom02+4 stakes]".into()]), trace: std::sync::Arc::new(vec![json!({"root": "Custom02 with stakes ending in epochs 0, 1, 2, 9"})]), lineage: std::sync::Arc::new(vec![h0]), salt: 0 };
+        let rootn = Node::new_root(Real::Sealed(s), model, "genesis[Custom02+4 stakes]".to_string(), json!({"root": "Custom02 with stakes ending in epochs 0, 1, 2, 9"}), vec![h0]);
         let scratch = Run::new("scratch", "quick");
         let eng = Engine::new(&scratch);
         let mut cfg = AlphaCfg::base();
